@@ -27,7 +27,7 @@ theorem tight_read_facts (cfg : Cfg) (al : Bool) (fs : Fields) (ht : Fields.tigh
     have hlen : (sread d pos sz).length = sz := by omega
     refine ⟨sz, rfl, ?_, hlen⟩
     cases h4
-    rw [hlen]
+    rfl
 
 theorem tight_take (cfg : Cfg) (al : Bool) (fs : Fields) (ht : Fields.tightUnion cfg al fs = true) (ctx : Ctx)
     (d : Bytes) (pos : Nat) (v : Val) (p : Nat) (h : read cfg (.union al fs) ctx d pos = .ok (v, p)) (q : Nat) (hq : p ≤ q) :
